@@ -242,34 +242,33 @@ Proof.
   destruct (remap_all mf mg mm b) as [b'|]; [|discriminate]. intros H. inversion H. exists a', b'. auto.
 Qed.
 
-Definition one_rec (remap : list fop -> option (list fop)) (pos : N) (idx : nat) (code tag : N) (l : list fop) (mapped : bool)
+Definition one_rec (remap : list fop -> option (list fop)) (pos : N) (idx : nat) (code tag : N) (l : list fop)
   : option (list srec) :=
   match l with
   | [] => Some []
-  | _ => match (if mapped then remap l else Some l) with
+  | _ => match remap l with
          | Some l' => Some [mkRec [1; code; N.of_nat idx; pos] l' tag]
          | None => None
          end
   end.
 Lemma fx_loc_probes_cons pos last idx op f r' tagof remap :
   fx_loc_probes pos last idx ((op, f) :: r') tagof remap
-  = match one_rec remap pos idx 0 (tagof idx MBefore) (f_before f) true,
-          one_rec remap pos idx 1 (tagof idx MAfter) (f_after f) (negb (Nat.leb last idx)),
-          one_rec remap pos idx 2 (tagof idx MAlternate) (match f_alt f with Some a => a | None => [] end) (negb (Nat.leb last idx)),
+  = match one_rec remap pos idx 0 (tagof idx MBefore) (f_before f),
+          one_rec remap pos idx 1 (tagof idx MAfter) (if Nat.leb last idx then [] else f_after f),
+          one_rec remap pos idx 2 (tagof idx MAlternate)
+                  (if Nat.leb last idx then [] else match f_alt f with Some a => a | None => [] end),
           fx_loc_probes pos last (S idx) r' tagof remap with
     | Some a, Some b, Some c, Some rest => Some (a ++ b ++ c ++ rest)
     | _, _, _, _ => None
     end.
 Proof. reflexivity. Qed.
-Lemma one_rec_inv remap pos idx code tag l mapped a rc :
-  one_rec remap pos idx code tag l mapped = Some a -> In rc a ->
-  l <> [] /\ exists l', rc = mkRec [1; code; N.of_nat idx; pos] l' tag /\ (if mapped then remap l = Some l' else l' = l).
+Lemma one_rec_inv remap pos idx code tag l a rc :
+  one_rec remap pos idx code tag l = Some a -> In rc a ->
+  l <> [] /\ exists l', rc = mkRec [1; code; N.of_nat idx; pos] l' tag /\ remap l = Some l'.
 Proof.
   unfold one_rec. destruct l as [|o l]; [intros H; inversion H; subst; intros []|].
-  destruct mapped.
-  - destruct (remap (o :: l)) as [l'|]; [|discriminate]. intros H Hin. inversion H; subst. destruct Hin as [<-|[]].
-    split; [discriminate|]. exists l'. auto.
-  - intros H Hin. inversion H; subst. destruct Hin as [<-|[]]. split; [discriminate|]. exists (o :: l). auto.
+  destruct (remap (o :: l)) as [l'|]; [|discriminate]. intros H Hin. inversion H; subst. destruct Hin as [<-|[]].
+  split; [discriminate|]. exists l'. auto.
 Qed.
 
 Lemma has_instr_before f : f_before f <> [] -> has_instr f = true.
@@ -279,53 +278,99 @@ Proof. unfold has_instr. destruct (f_after f); [congruence|]. cbn. rewrite !orb_
 Lemma has_instr_alt f a : f_alt f = Some a -> has_instr f = true.
 Proof. unfold has_instr. intros ->. cbn. rewrite !orb_true_r. reflexivity. Qed.
 
-(* every reported probe body - except the after / alternate list of the function's final `end`, which the encoder
-   drops (class 205) - occurs verbatim, with the very same index immediates, in the code the encoder emits *)
+(* every probe body that add_opcode_injections reports occurs verbatim, with the very same index immediates, in the
+   code the encoder emits (since the repair of D205 without exception: what the encoder drops at the final `end` is not
+   reported) *)
 Theorem probe_bodies_are_emitted mf mg mm : forall (r : list (fop * flags)) pos last idx tagof recs body,
   fx_loc_probes pos last idx r tagof (remap_all mf mg mm) = Some recs ->
   remap_all mf mg mm (emit_from last idx r) = Some body ->
-  forall rc, In rc recs ->
-    (nth 1%nat (r_fields rc) 9 = 0 \/ (N.to_nat (nth 2%nat (r_fields rc) 0%N) < last)%nat) ->
-    exists pre post, body = pre ++ r_body rc ++ post.
+  forall rc, In rc recs -> exists pre post, body = pre ++ r_body rc ++ post.
 Proof.
-  induction r as [|[op f] r' IH]; intros pos last idx tagof recs body Hrec Hemit rc Hin Hcond.
+  induction r as [|[op f] r' IH]; intros pos last idx tagof recs body Hrec Hemit rc Hin.
   - cbn in Hrec. inversion Hrec; subst. destruct Hin.
   - rewrite fx_loc_probes_cons in Hrec.
-    destruct (one_rec _ pos idx 0 _ (f_before f) true) as [ra|] eqn:Ea; [|discriminate].
-    destruct (one_rec _ pos idx 1 _ (f_after f) _) as [rb|] eqn:Eb; [|discriminate].
-    destruct (one_rec _ pos idx 2 _ _ _) as [rcs|] eqn:Ec; [|discriminate].
+    destruct (one_rec _ pos idx 0 _ (f_before f)) as [ra|] eqn:Ea; [|discriminate].
+    destruct (one_rec _ pos idx 1 _ _) as [rb|] eqn:Eb; [|discriminate].
+    destruct (one_rec _ pos idx 2 _ _) as [rcs|] eqn:Ec; [|discriminate].
     destruct (fx_loc_probes pos last (S idx) r' tagof _) as [rest|] eqn:Er; [|discriminate].
     inversion Hrec; subst recs; clear Hrec.
     cbn [emit_from] in Hemit.
     apply remap_app_inv in Hemit as (c' & t' & Hc & Ht & ->).
     apply in_app_or in Hin as [Hin|Hin]; [|apply in_app_or in Hin as [Hin|Hin]; [|apply in_app_or in Hin as [Hin|Hin]]].
     + (* before *)
-      destruct (one_rec_inv _ _ _ _ _ _ _ _ _ Ea Hin) as (Hne & l' & -> & Hl).
+      destruct (one_rec_inv _ _ _ _ _ _ _ _ Ea Hin) as (Hne & l' & -> & Hl).
       rewrite (has_instr_before f Hne) in Hc. cbn [negb] in Hc.
       apply remap_app_inv in Hc as (b' & x' & Hb & _ & ->). rewrite Hl in Hb. inversion Hb; subst b'.
       exists [], (x' ++ t'). cbn [r_body app]. rewrite <- app_assoc. reflexivity.
     + (* after *)
-      destruct (one_rec_inv _ _ _ _ _ _ _ _ _ Eb Hin) as (Hne & l' & -> & Hl).
-      cbn [r_fields nth] in Hcond. destruct Hcond as [Hcond|Hcond]; [discriminate|]. rewrite Nat2N.id in Hcond.
-      assert (Hat : Nat.leb last idx = false) by (apply Nat.leb_gt; exact Hcond).
-      rewrite Hat in Hl. cbn [negb] in Hl.
-      rewrite (has_instr_after f Hne), Hat in Hc. cbn [negb] in Hc.
+      destruct (one_rec_inv _ _ _ _ _ _ _ _ Eb Hin) as (Hne & l' & -> & Hl).
+      destruct (Nat.leb last idx) eqn:Hat; [congruence|].
+      rewrite (has_instr_after f Hne) in Hc. cbn [negb] in Hc.
       apply remap_app_inv in Hc as (b' & x' & _ & Hx & ->).
       apply remap_app_inv in Hx as (m' & a' & _ & Ha & ->). rewrite Hl in Ha. inversion Ha; subst a'.
       exists (b' ++ m'), t'. cbn [r_body]. rewrite <- !app_assoc. reflexivity.
     + (* alternate *)
-      destruct (one_rec_inv _ _ _ _ _ _ _ _ _ Ec Hin) as (Hne & l' & -> & Hl).
-      cbn [r_fields nth] in Hcond. destruct Hcond as [Hcond|Hcond]; [discriminate|]. rewrite Nat2N.id in Hcond.
-      assert (Hat : Nat.leb last idx = false) by (apply Nat.leb_gt; exact Hcond).
-      rewrite Hat in Hl. cbn [negb] in Hl.
+      destruct (one_rec_inv _ _ _ _ _ _ _ _ Ec Hin) as (Hne & l' & -> & Hl).
+      destruct (Nat.leb last idx) eqn:Hat; [congruence|].
       destruct (f_alt f) as [a0|] eqn:Ealt; [|congruence].
-      rewrite (has_instr_alt f a0 Ealt), Hat in Hc. cbn [negb] in Hc.
+      rewrite (has_instr_alt f a0 Ealt) in Hc. cbn [negb] in Hc.
       apply remap_app_inv in Hc as (b' & x' & _ & Hx & ->).
       apply remap_app_inv in Hx as (m' & a' & Hm & _ & ->). rewrite Hl in Hm. inversion Hm; subst m'.
       exists b', (a' ++ t'). cbn [r_body]. rewrite <- !app_assoc. reflexivity.
     + (* a later instruction *)
-      destruct (IH _ _ _ _ _ _ Er Ht rc Hin Hcond) as (pre & post & ->).
+      destruct (IH _ _ _ _ _ _ Er Ht rc Hin) as (pre & post & ->).
       exists (c' ++ pre), post. rewrite <- app_assoc. reflexivity.
+Qed.
+
+(* the report of a function with special instrumentation (since the repair of D22): every record is the list of exactly
+   one (instruction, mode) of the flags *before* the lowering - its operators re-mapped, under that very instruction and
+   mode, with the tag appended in that mode - and no (instruction, mode) is reported twice *)
+Lemma fx_modes_spec pos idx at_end f tagof remap : forall modes recs rc,
+  fx_modes pos idx at_end f modes tagof remap = Some recs -> In rc recs ->
+  exists m, In m modes /\ mode_list f m <> [] /\ remap (mode_list f m) = Some (r_body rc) /\
+            r_fields rc = [1; mcode m; N.of_nat idx; pos] /\ r_tag rc = tagof idx m.
+Proof.
+  induction modes as [|m ms IH]; intros recs rc H Hin; cbn [fx_modes] in H.
+  - inversion H; subst. destruct Hin.
+  - set (l := if at_end && match m with MAfter | MAlternate => true | _ => false end then [] else mode_list f m) in *.
+    destruct (match l with [] => Some [] | _ :: _ => match remap l with Some l' => Some [mkRec [1; mcode m; N.of_nat idx; pos] l' (tagof idx m)] | None => None end end) as [a|] eqn:Ea; [|discriminate].
+    destruct (fx_modes pos idx at_end f ms tagof remap) as [rest|] eqn:Er; [|discriminate].
+    inversion H; subst recs; clear H. apply in_app_or in Hin as [Hin|Hin].
+    + exists m. split; [left; reflexivity|].
+      destruct l as [|o l'] eqn:El; [inversion Ea; subst; destruct Hin|].
+      destruct (remap (o :: l')) as [l2|] eqn:E2; [|discriminate]. inversion Ea; subst a. destruct Hin as [<-|[]].
+      assert (Hl : mode_list f m = o :: l').
+      { subst l. destruct (at_end && _); [discriminate|exact El]. }
+      rewrite Hl. repeat split; try reflexivity; [discriminate|exact E2].
+    + destruct (IH _ _ eq_refl Hin) as (m' & Hm & R). exists m'. split; [right; exact Hm|exact R].
+Qed.
+
+Theorem unresolved_records_are_probes pos tagof remap : forall body last idx st recs rc,
+  fx_unresolved pos last idx body st tagof remap = Some recs -> In rc recs ->
+  exists k op f m, nth_error body k = Some (op, f) /\ mode_list f m <> [] /\ remap (mode_list f m) = Some (r_body rc) /\
+                   r_fields rc = [1; mcode m; N.of_nat (idx + k); pos] /\ r_tag rc = tagof (idx + k)%nat m.
+Proof.
+  induction body as [|[op f] body IH]; intros last idx st recs rc H Hin; cbn [fx_unresolved] in H.
+  - inversion H; subst. destruct Hin.
+  - destruct (site_step op f st) as [st' what].
+    destruct (fx_modes pos idx (Nat.leb last idx) f [MBefore; MAfter] tagof remap) as [a|] eqn:Ea; [|discriminate].
+    match type of H with context [match ?X with Some b => Some (a ++ b) | None => None end] => destruct X as [b|] eqn:Eb end; [|discriminate].
+    destruct (fx_unresolved pos last (S idx) body st' tagof remap) as [rest|] eqn:Er; [|discriminate].
+    inversion H; subst recs; clear H.
+    assert (Here : forall at_end modes l, fx_modes pos idx at_end f modes tagof remap = Some l -> In rc l ->
+              exists k op0 f0 m, nth_error ((op, f) :: body) k = Some (op0, f0) /\ mode_list f0 m <> [] /\
+                remap (mode_list f0 m) = Some (r_body rc) /\ r_fields rc = [1; mcode m; N.of_nat (idx + k); pos] /\
+                r_tag rc = tagof (idx + k)%nat m).
+    { intros at_end modes l Hl Hrc. destruct (fx_modes_spec _ _ _ _ _ _ _ _ _ Hl Hrc) as (m & _ & A & B & C & D).
+      exists 0%nat, op, f, m. rewrite Nat.add_0_r. cbn. auto. }
+    apply in_app_or in Hin as [Hin|Hin]; [apply in_app_or in Hin as [Hin|Hin]|].
+    + exact (Here _ _ _ Ea Hin).
+    + destruct what.
+      * destruct (has_instr f); [exact (Here _ _ _ Eb Hin)|inversion Eb; subst; destruct Hin].
+      * exact (Here _ _ _ Eb Hin).
+      * inversion Eb; subst. destruct Hin.
+    + destruct (IH _ _ _ _ _ Er Hin) as (k & op0 & f0 & m & A & B & C & D & E).
+      exists (S k), op0, f0, m. cbn [nth_error]. replace (idx + S k)%nat with (S idx + k)%nat by lia. auto.
 Qed.
 
 (* ------------------------------------------------------------------------------------------ *)
@@ -400,7 +445,7 @@ Definition Report_ok (c : scase) (fx : list (N * list srec)) (e : emod) (emitted
   (forall k, In k addition_kinds -> Kind_ok (expected (spec_fin c) k) k (recs_of fx k)) /\
   (forall r, In r (recs_of fx K_PROBE) -> Probe_rec_ok c e emitted r) /\
   probes_once (recs_of fx K_PROBE) = true /\
-  probes_complete c (recs_of fx K_PROBE) = true.
+  probes_complete c emitted (recs_of fx K_PROBE) = true.
 
 Theorem sidefx_checker_sound (c : scase) fx e emitted :
   holds c = true -> so_fx c = Some fx -> so_enc c = Some (e, emitted) -> Report_ok c fx e emitted.
